@@ -39,7 +39,9 @@ def layouts(tier):
             trecs.append([f"$THETA {a} {b}"])
             trecs.append([f"$THETA {a}", f"$THETA {b}"])
         orecs = nmgen.omega_records(tier)
-        orecs = orecs[:23] + orecs[23:75] + orecs[75::3]
+        nprod = sum(1 for r in orecs if len(r) == 2 and "BLOCK" in r[1] and "SAME" not in r[1] and "BLOCK" not in r[0])
+        head = len(orecs) - nprod  # single forms, SAME continuations, diag x diag pairs: all; diag x block product: every third
+        orecs = orecs[:head] + orecs[head::3]
     else:
         trecs = nmgen.theta_records(tier)
         orecs = nmgen.omega_records(tier)
@@ -121,8 +123,15 @@ def compare(model, back):
     out = []
     a, b = list(model.parameters), list(back.parameters)
     an, bn = [p.name for p in a], [p.name for p in b]
-    if sorted(an) != sorted(bn):
+    names_differ = sorted(an) != sorted(bn)
+    if names_differ:
         out.append(f"parameter names differ: model {an}, re-read {bn}")
+        # names that are only positional defaults may be renumbered by the re-read; the values must still be the same set, so
+        # that a lost or wrong value is not hidden behind the name difference
+        v1 = sorted(round(float(p.init), 12) for p in a)
+        v2 = sorted(round(float(p.init), 12) for p in b)
+        if len(v1) != len(v2) or any(not close(x, y, 1e-10) for x, y in zip(v1, v2)):
+            out.append(f"VALUE the initial values of the model {v1} are not the values in the re-read code {v2}")
         return out
     bd = {p.name: p for p in b}
     variances = set()
@@ -252,6 +261,7 @@ def run_layout(kind, thetas, omegas, sigmas, tier, res):
                                           "class": f"unreadable:{elabel.split('(')[0]}"})
                 continue
             diffs = compare(m2, back)
+            diffs.sort(key=lambda d: 0 if d.startswith("VALUE") else 1)
             res["traces_validated_against_impl"] += 1
             if code != base_code:
                 res["distinct_nontrivial"] += 1
